@@ -147,6 +147,58 @@ Fixpoint interleaved (fuel : nat) (fs : list (list (list bytes))) (out : list by
 Definition stdout_blocks (o : cb_options) (lib : libfn) (p : bytes) : list (list bytes) :=
   filter (fun b => match b with [] => false | _ => true end) (map stdout_of (worker_blocks o lib p)).
 
+(* ------------------------------------------------------------------ multiset comparison in n log n
+   (the quadratic mset_eqb of CliSpec.v is too slow for outputs of ten thousand lines): both sides are
+   sorted with the merge sort of Coq's Sorting.Mergesort (copied here as plain definitions, ordered by
+   bytes_leb) and compared / subtracted by one linear pass. *)
+Fixpoint bmerge (l1 l2 : list bytes) : list bytes :=
+  let fix merge_aux (l2 : list bytes) : list bytes :=
+      match l1, l2 with
+      | [], _ => l2
+      | _, [] => l1
+      | a1 :: l1', a2 :: l2' => if bytes_leb a1 a2 then a1 :: bmerge l1' l2 else a2 :: merge_aux l2'
+      end in
+  merge_aux l2.
+
+Fixpoint merge_list_to_stack (stack : list (option (list bytes))) (l : list bytes) : list (option (list bytes)) :=
+  match stack with
+  | [] => [Some l]
+  | None :: stack' => Some l :: stack'
+  | Some l' :: stack' => None :: merge_list_to_stack stack' (bmerge l' l)
+  end.
+Fixpoint merge_stack (stack : list (option (list bytes))) : list bytes :=
+  match stack with
+  | [] => []
+  | None :: stack' => merge_stack stack'
+  | Some l :: stack' => bmerge l (merge_stack stack')
+  end.
+Fixpoint iter_merge (stack : list (option (list bytes))) (l : list bytes) : list bytes :=
+  match l with
+  | [] => merge_stack stack
+  | a :: l' => iter_merge (merge_list_to_stack stack [a]) l'
+  end.
+Definition bsort (l : list bytes) : list bytes := iter_merge [] l.
+
+(* a and b sorted: b minus a, None when an element of a is missing from b *)
+Fixpoint sorted_diff (a b : list bytes) : option (list bytes) :=
+  match a with
+  | [] => Some b
+  | x :: a' =>
+      (fix skip (b : list bytes) : option (list bytes) :=
+         match b with
+         | [] => None
+         | y :: b' =>
+             if bytes_eqb x y then sorted_diff a' b'
+             else if bytes_leb y x then match skip b' with Some r => Some (y :: r) | None => None end
+             else None
+         end) b
+  end.
+
+Definition fast_mset_eqb (a b : list bytes) : bool := list_eqb bytes_eqb (bsort a) (bsort b).
+Definition fast_mset_diff (a b : list bytes) : option (list bytes) := sorted_diff (bsort a) (bsort b).
+Definition fast_mset_subb (a b : list bytes) : bool :=
+  match fast_mset_diff a b with Some _ => true | None => false end.
+
 Definition C18_case (s : sc_options) (o : cb_options) (io : in_options) (used : scan_params)
            (ds : list decl) (t : target) (st : spec_target) (tbl : list lib_entry)
            (out err : list bytes) (exit : N) : bool * bool * N :=
@@ -155,19 +207,19 @@ Definition C18_case (s : sc_options) (o : cb_options) (io : in_options) (used : 
   let corr :=
       params_eqb used (params_of_flags s o)
       && (if exact then list_eqb bytes_eqb out (stdout_of lines)
-          else mset_eqb bytes_eqb out (stdout_of lines)
+          else fast_mset_eqb out (stdout_of lines)
                && interleaved (length out) (map (stdout_blocks o (lib_of tbl)) (sent_files (producer io t))) out)
-      && mset_eqb bytes_eqb err (stderr_of lines)
+      && fast_mset_eqb err (stderr_of lines)
       && (exit =? code) in
   let spec :=
       spec_params_ok s o used
       && (negb (limit_specified o)
           || match spec_stdout o io ds tbl st with
              | Some (must, may) =>
-                 match mset_diff bytes_eqb must out with
+                 match fast_mset_diff must out with
                  | Some rest =>
                      if o_count o then forallb (count_line_ok o tbl) rest
-                     else mset_subb bytes_eqb rest may
+                     else fast_mset_subb rest may
                  | None => false
                  end
              | None => false
